@@ -67,12 +67,20 @@ def strat_focus(tier):
         'Qfix': st.one_of(st.sampled_from([1.0, 2.0, 0.5, 1.37]), U.nice_float(0.4, 4).map(lambda v: round(v, 3))),
         'out': st.one_of(st.tuples(oax, oax).map(list), oax.map(lambda k: [k, k])),
         'shift': st.one_of(st.just([0, 0]), st.tuples(sh, sh).map(list)),     # in units of output samples; converted to output units
-        'shift_type': st.sampled_from(['tuple', 'tuple', 'ndarray']),
+        'shift_type': st.sampled_from(['tuple', 'tuple', 'ndarray']), 'fftbackend': U.fft_backends,
     })
 
 
 def check_focus(case, ctx):
     """the focal-plane intensity equals the analytic field evaluated at the coordinates the output reports; the peak sits at k*lambda*f/D."""
+    be = case.get('fftbackend', 'scipy')
+    if be != 'scipy':
+        ctx.label('fft-backend:' + be)
+    with U.fft_backend(be):
+        _check_focus_inner(case, ctx)
+
+
+def _check_focus_inner(case, ctx):
     from prysm import propagation as P
     _reset()
     shape, dxp, lam, efl, route, via = case['shape'], case['dx'], case['wvl'], case['efl'], case['route'], case['via']
@@ -192,12 +200,20 @@ def strat_unfocus(tier):
         'Q': st.one_of(st.sampled_from([1.0, 2.0, 0.5, 1.37]), U.nice_float(0.4, 4).map(lambda v: round(v, 3))),
         'route': st.sampled_from(['fft', 'mdft', 'czt', 'mdft', 'czt']), 'via': st.sampled_from(['function', 'wavefront']),
         'shift': st.one_of(st.just([0, 0]), st.just([0, 0]), st.tuples(st.integers(-6, 6).map(lambda k: k / 2), st.integers(-6, 6).map(lambda k: k / 2)).map(list)),
-        'fdtype': st.sampled_from(['complex128', 'complex128', 'float64', 'float32', 'bool']),
+        'fdtype': st.sampled_from(['complex128', 'complex128', 'float64', 'float32', 'bool']), 'fftbackend': U.fft_backends,
     })
 
 
 def check_unfocus(case, ctx):
     """a focal-plane impulse at physical offset p unfocuses to the tilt exp(+2 pi i p x/(lambda f)) on the grid the output reports."""
+    be = case.get('fftbackend', 'scipy')
+    if be != 'scipy':
+        ctx.label('fft-backend:' + be)
+    with U.fft_backend(be):
+        _check_unfocus_inner(case, ctx)
+
+
+def _check_unfocus_inner(case, ctx):
     from prysm import propagation as P
     _reset()
     fshape, pshape, dxf, lam, efl, route, via = (case[k] for k in ('fshape', 'pshape', 'dxf', 'wvl', 'efl', 'route', 'via'))
